@@ -110,7 +110,7 @@ Fixpoint fields_aux (cur : bytes) (s : bytes) : list bytes :=
   end.
 Definition fields (s : bytes) : list bytes := fields_aux [] s.
 
-Definition starts_hash (f : bytes) : bool := match f with 35 :: _ => true | _ => false end.
+Definition starts_hash (f : bytes) : bool := match f with c :: _ => c =? 35 | [] => false end.
 
 (* for i, field := range fields: if the field starts with a hash then fields = fields[:i]; break *)
 Fixpoint drop_comment (fs : list bytes) : list bytes :=
@@ -132,18 +132,17 @@ Definition int_max : Z := 9223372036854775807%Z.
 Definition in_int (z : Z) : bool := (int_min <=? z)%Z && (z <=? int_max)%Z.
 
 (* strconv.Atoi: optional sign, one or more decimal digits, value must fit int64 *)
-Definition atoi (s : bytes) : option Z :=
-  let '(neg, digits) :=
-    match s with
-    | 45 :: r => (true, r)
-    | 43 :: r => (false, r)
-    | _ => (false, s)
-    end in
+Definition atoi_digits (neg : bool) (digits : bytes) : option Z :=
   match undec digits with
   | None => None
   | Some n =>
       let z := if neg then (- Z.of_N n)%Z else Z.of_N n in
       if in_int z then Some z else None
+  end.
+Definition atoi (s : bytes) : option Z :=
+  match s with
+  | c :: r => if c =? 45 then atoi_digits true r else if c =? 43 then atoi_digits false r else atoi_digits false s
+  | [] => None
   end.
 
 (* ------------------------------------------------------------------ MountEntry.String / ParseMountEntry *)
@@ -189,7 +188,7 @@ Fixpoint profile_text (es : list entry) : bytes :=
 
 (* bufio.ScanLines: split at \n, drop one trailing \r of each line, a final unterminated non-empty line counts.
    (The 64 KiB token limit of bufio.Scanner is not modelled; see notes/C28.md.) *)
-Definition drop_cr (rl : bytes) : bytes := match rl with 13 :: r => r | _ => rl end.   (* on the reversed line *)
+Definition drop_cr (rl : bytes) : bytes := match rl with c :: r => if c =? 13 then r else rl | [] => rl end.   (* on the reversed line *)
 Fixpoint lines_aux (cur : bytes) (s : bytes) : list bytes :=
   match s with
   | [] => match cur with [] => [] | _ => [rev (drop_cr cur)] end
@@ -202,20 +201,25 @@ Definition lines (s : bytes) : list bytes := lines_aux [] s.
 Definition ascii_space (c : N) : bool := ((9 <=? c) && (c <=? 13)) || (c =? 32).
 
 (* length of the white-space rune the string starts with (0 = none) *)
+Definition in_2000_block (d : N) : bool := ((128 <=? d) && (d <=? 138)) || (d =? 168) || (d =? 169) || (d =? 175).
 Definition space_prefix_len (s : bytes) : nat :=
   match s with
   | c :: r =>
       if ascii_space c then 1%nat
-      else if c =? 194 then match r with d :: _ => if (d =? 133) || (d =? 160) then 2%nat else 0%nat | _ => 0%nat end
-      else if c =? 225 then match r with 154 :: 128 :: _ => 3%nat | _ => 0%nat end
-      else if c =? 226 then
-        match r with
-        | 128 :: d :: _ => if ((128 <=? d) && (d <=? 138)) || (d =? 168) || (d =? 169) || (d =? 175) then 3%nat else 0%nat
-        | 129 :: 159 :: _ => 3%nat
-        | _ => 0%nat
-        end
-      else if c =? 227 then match r with 128 :: 128 :: _ => 3%nat | _ => 0%nat end
-      else 0%nat
+      else match r with
+           | d :: r2 =>
+               if (c =? 194) && ((d =? 133) || (d =? 160)) then 2%nat
+               else match r2 with
+                    | e :: _ =>
+                        if (c =? 225) && (d =? 154) && (e =? 128) then 3%nat
+                        else if (c =? 226) && (d =? 128) && in_2000_block e then 3%nat
+                        else if (c =? 226) && (d =? 129) && (e =? 159) then 3%nat
+                        else if (c =? 227) && (d =? 128) && (e =? 128) then 3%nat
+                        else 0%nat
+                    | [] => 0%nat
+                    end
+           | [] => 0%nat
+           end
   | [] => 0%nat
   end.
 
@@ -230,8 +234,7 @@ Definition space_suffix_len (rs : bytes) : nat :=
                else match r2 with
                     | e :: _ =>
                         if (e =? 225) && (d =? 154) && (c =? 128) then 3%nat
-                        else if (e =? 226) && (d =? 128) &&
-                                (((128 <=? c) && (c <=? 138)) || (c =? 168) || (c =? 169) || (c =? 175)) then 3%nat
+                        else if (e =? 226) && (d =? 128) && in_2000_block c then 3%nat
                         else if (e =? 226) && (d =? 129) && (c =? 159) then 3%nat
                         else if (e =? 227) && (d =? 128) && (c =? 128) then 3%nat
                         else 0%nat
@@ -285,7 +288,7 @@ Definition guard (e : entry) : bool :=
 (* additionally for whole profiles: the line must survive strings.TrimSpace, i.e. the name must not begin
    with a white-space rune that escape leaves alone (\v \f \r, U+0085, U+00A0, ...) *)
 Definition name_untrimmed (e : entry) : bool :=
-  match space_prefix_len (escape (e_name e)) with O => true | _ => false end.
+  match space_prefix_len (entry_string e) with O => true | _ => false end.
 Definition profile_guard (e : entry) : bool := guard e && name_untrimmed e.
 
 (* ------------------------------------------------------------------ correspondence interface *)
@@ -333,11 +336,13 @@ Definition mismatch (c : case) : bool :=
   end.
 
 (* the property on the implementation's observed behaviour: a guarded entry / profile reads back unchanged,
-   escaping is undone by unescaping. (Free text cases carry no obligation of their own.) *)
+   escaping is undone by unescaping. (Free text cases carry no obligation of their own.) The monitor uses the
+   property's own guard; profiles whose first byte is eaten by TrimSpace are the recorded finding
+   profile-name-leading-space-rune (theorem C28_profile_roundtrip carries the extra hypothesis). *)
 Definition monitor_fail (c : case) : bool :=
   match c with
   | CEntry e _ back => guard e && negb (opt_entry_eqb back (Some e))
   | CEsc s _ _ b => negb (beq b s)
-  | CProfile es _ back => forallb profile_guard es && negb (opt_entries_eqb back (Some es))
+  | CProfile es _ back => forallb guard es && negb (opt_entries_eqb back (Some es))
   | _ => false
   end.
